@@ -41,10 +41,10 @@ theorem C09_limits (codec : Nat) (p : Params) :
 /-- `of_set_fec_parameters` answers OK exactly when the configuration is inside the limits (and, for LDPC, the matrix
 construction terminates); otherwise it answers a fatal error -/
 theorem C09_accept_iff (IO : SymIO σ) (g : Nat) (s : Session σ) (p : Params) :
-    ((setParams IO g s p).2.1 = Status.ok ↔
+    ((setParamsStd IO g s p).2.1 = Status.ok ↔
       (withinLimits s.codec p = true ∧ (s.codec = 3 → (Rfc5170.create CSem.rne53 g p.k p.r p.N1 p.seed.toNat).2.isSome))) ∧
-    ((setParams IO g s p).2.1 = Status.ok ∨ (setParams IO g s p).2.1 = Status.fatal) := by
-  unfold setParams
+    ((setParamsStd IO g s p).2.1 = Status.ok ∨ (setParamsStd IO g s p).2.1 = Status.fatal) := by
+  unfold setParamsStd
   simp only []
   by_cases hw : withinLimits s.codec p = true
   · simp only [hw, Bool.not_true, Bool.false_eq_true, if_false, true_and]
@@ -63,8 +63,8 @@ theorem C09_accept_iff (IO : SymIO σ) (g : Nat) (s : Session σ) (p : Params) :
 
 /-- a rejected configuration leaves the session unconfigured (only release and queries remain possible) -/
 theorem C09_reject_keeps_unconfigured (IO : SymIO σ) (g : Nat) (s : Session σ) (p : Params) (hn : s.params = none)
-    (h : (setParams IO g s p).2.1 ≠ Status.ok) : (setParams IO g s p).2.2.params = none := by
-  unfold setParams at h ⊢
+    (h : (setParamsStd IO g s p).2.1 ≠ Status.ok) : (setParamsStd IO g s p).2.2.params = none := by
+  unfold setParamsStd at h ⊢
   simp only [] at h ⊢
   (repeat' split) <;> simp_all
 
@@ -80,3 +80,16 @@ theorem C09_bad_esi_rejected (IO : SymIO σ) (w : World σ) (sid esi : Nat) (nul
     simp [this]
   · simp [h]
   · simp [h]
+
+
+/-- the 2D parity codec accepts exactly the configurations within its limits (k ≤ 16, n ≤ 24) for which the (d, l) search
+finds a product shape; it does not involve the PRNG; a rejected configuration leaves the session unconfigured -/
+theorem C09_accept_iff_2d (g : Nat) (s : Session σ) (p : Params) (hn : s.params = none) :
+    ((setParams2D g s p).2.1 = Status.ok ↔ (withinLimits2D p = true ∧ (Parity2D.rows p.k p.r).isSome)) ∧
+    ((setParams2D g s p).2.1 = Status.ok ∨ (setParams2D g s p).2.1 = Status.fatal) ∧
+    ((setParams2D g s p).2.1 ≠ Status.ok → (setParams2D g s p).2.2.params = none) ∧ (setParams2D g s p).1 = g := by
+  unfold setParams2D
+  by_cases hw : withinLimits2D p = true
+  · cases hr : Parity2D.rows p.k p.r <;> simp [hw, hn]
+  · have hw' : withinLimits2D p = false := by simpa using hw
+    simp [hw', hn]
